@@ -25,6 +25,12 @@ CLAIMED = {
         text="Well-typed, terminating, defined-by-construction programs over the documented core language (ints incl. 64-bit boundaries and wrapping, bools, strings incl. escapes/UTF-8/long literals, floats compared, arrays, structs, enums, unions+match, tuples, globals, recursion, first-class functions, while/for/break/continue, shadowing) are compiled by nanoc (+cc) and by nano_virt --run; stdout bytes and exit status must be equal. A reference evaluator only discards undefined/over-budget programs. Exploration: the program space is sampled; open ledger findings gate their trigger shapes (counted in evidence).",
         note="Multi-file imports and map/filter/reduce are not generated yet; native programs link a prebuilt archive of the runtime compiled with nanoc's own flags (tools/nanocc shim).",
         design="3/C01"),
+    "C02": dict(
+        category="exploration",
+        technique="reference-model oracle: independent Python evaluator transcribed from SPECIFICATION.md 4-8 vs each engine, on Hypothesis-generated programs, evaluation-order and scope probes, plus an exhaustive operator x boundary-operand table",
+        text="Each engine (native binary, nano_virt --run) is compared separately with an executable transcription of the specification: strict left-to-right evaluation (probes whose leaves print their own id inside operators, calls, literals, cond, and/or), short-circuit, equal-precedence infix, static scoping / shadowing towers (sections 8.1, 8.2), immutability, 64-bit wrap-around. The operator table covers every ordered pair of 17 int boundaries for 11 int operators (both spellings), all bool pairs, a string set, and the unary operators, with operands arriving at run time. Exploration level; only the table is exhaustive.",
+        note="The reference model is hand-written (trusted base); / and % follow C truncation. The Coq big-step relation (formal/Semantics.v) is not executed: the NanoCore/--trust-report clause is checked only through the specification semantics it shares (see DESIGN.md limits).",
+        design="3/C02"),
 }
 
 NOT_YET = {
